@@ -184,13 +184,25 @@ def r4(ctx):
         hoc = [bb for bb, t in d.calls("turmoil_net::kernel::tcp::handle_on_connection")]
         ves = [v for v in variant_edges(d, lambda p: True) if v[3] == "std::option::Option" and fc and d.dominated_by_block(v[0], fc[0])]
         ok = False
+        revives = False
         if ves and fl:
             sbb, m, els, adt, pl = ves[0]
             ne = m.get("None") or els
             se = m.get("Some")
-            ok = all(d.dominated_by_edge(x, ne) for x in fl) and bool(se) and all(d.dominated_by_edge(x, se) for x in hoc)
-        ctx.inst(R, "tcp-deliver:connection-before-listener", ok, d.span, "an established 4-tuple wins over a listener" if ok else
+            # the listener is consulted when no connection matches - or when the matching one is dead (state Closed: it only waits for
+            # its owner to drop the handle) and the segment is a fresh SYN
+            dead = []
+            for s2, te, fe, o in guards_on(d, lambda o: True):
+                at = Slicer(ctx.w, into_callees=2).atoms(d, d.term(s2)["d"])
+                if "field:turmoil_net::kernel::socket::Tcb::state" in at:
+                    dead += te + fe
+            ok = all(d.dominated_by_any(x, edges=[ne] + dead) for x in fl) and bool(se) and all(d.dominated_by_edge(x, se) for x in hoc)
+            revives = bool(dead) and any(x in d.reachable(se[1]) for x in fl)
+        ctx.inst(R, "tcp-deliver:connection-before-listener", ok, d.span, "a live 4-tuple wins over a listener" if ok else
                  "the listener is consulted before / without the 4-tuple lookup failing: segments of an established connection can reach the listener")
+        ctx.inst(R, "tcp-deliver:dead-connection-yields-to-listener", bool(ves and fl and revives), d.span, "a SYN that reuses the pair of a Closed connection reaches the listener" if ves and fl and revives else
+                 "a segment whose 4-tuple matches a socket in state Closed (reset, timed out or fully closed, but its handle not yet dropped) is always handed to that dead socket, "
+                 "which ignores it: once the peer's ephemeral port comes round again every SYN is swallowed and connect() ends in TimedOut although a listener is up")
         rst = [bb for bb, t in d.calls("turmoil_net::kernel::tcp::emit_rst")]
         fe_r = []
         for sbb, te, fe, o in guards_on(d, lambda o: o["k"] == "place" and place_last_field(o["p"]) == "turmoil_net::kernel::packet::TcpFlags::rst"):
